@@ -14,7 +14,7 @@ func FromGenerated(z air.Z) (*Z, error) {
 		if c, err = z.Zz(); err != nil {
 			return nil, err
 		}
-		if z.HasZz() {
+		if c.Struct.IsValid() {
 			if out.Zz, err = FromGenerated(c); err != nil {
 				return nil, err
 			}
@@ -201,7 +201,7 @@ func FromGenerated(z air.Z) (*Z, error) {
 		if e != nil {
 			return nil, e
 		}
-		if z.HasZdate() {
+		if d.Struct.IsValid() {
 			out.Zdate = &Zdate{Year: d.Year(), Month: d.Month(), Day: d.Day()}
 		}
 	case air.Z_Which_zdata:
@@ -209,7 +209,7 @@ func FromGenerated(z air.Z) (*Z, error) {
 		if e != nil {
 			return nil, e
 		}
-		if z.HasZdata() {
+		if d.Struct.IsValid() {
 			b, e := d.Data()
 			if e != nil {
 				return nil, e
@@ -233,7 +233,7 @@ func FromGenerated(z air.Z) (*Z, error) {
 		if e != nil {
 			return nil, e
 		}
-		if z.HasAircraft() {
+		if a.Struct.IsValid() {
 			v, e := aircraftFrom(a)
 			if e != nil {
 				return nil, e
@@ -245,13 +245,13 @@ func FromGenerated(z air.Z) (*Z, error) {
 		if e != nil {
 			return nil, e
 		}
-		if z.HasRegression() {
+		if r.Struct.IsValid() {
 			rr := &Regression{B0: r.B0(), Ymu: r.Ymu(), Ysd: r.Ysd()}
 			b, e := r.Base()
 			if e != nil {
 				return nil, e
 			}
-			if r.HasBase() {
+			if b.Struct.IsValid() {
 				if rr.Base, e = planeBaseFrom(b); e != nil {
 					return nil, e
 				}
@@ -281,7 +281,7 @@ func FromGenerated(z air.Z) (*Z, error) {
 		if e != nil {
 			return nil, e
 		}
-		if z.HasPlanebase() {
+		if b.Struct.IsValid() {
 			if out.Planebase, e = planeBaseFrom(b); e != nil {
 				return nil, e
 			}
@@ -293,13 +293,13 @@ func FromGenerated(z air.Z) (*Z, error) {
 		if e != nil {
 			return nil, e
 		}
-		if z.HasB737() {
+		if b.Struct.IsValid() {
 			out.B737 = &B737{}
 			pb, e := b.Base()
 			if e != nil {
 				return nil, e
 			}
-			if b.HasBase() {
+			if pb.Struct.IsValid() {
 				if out.B737.Base, e = planeBaseFrom(pb); e != nil {
 					return nil, e
 				}
@@ -310,13 +310,13 @@ func FromGenerated(z air.Z) (*Z, error) {
 		if e != nil {
 			return nil, e
 		}
-		if z.HasA320() {
+		if b.Struct.IsValid() {
 			out.A320 = &A320{}
 			pb, e := b.Base()
 			if e != nil {
 				return nil, e
 			}
-			if b.HasBase() {
+			if pb.Struct.IsValid() {
 				if out.A320.Base, e = planeBaseFrom(pb); e != nil {
 					return nil, e
 				}
@@ -327,13 +327,13 @@ func FromGenerated(z air.Z) (*Z, error) {
 		if e != nil {
 			return nil, e
 		}
-		if z.HasF16() {
+		if b.Struct.IsValid() {
 			out.F16 = &F16{}
 			pb, e := b.Base()
 			if e != nil {
 				return nil, e
 			}
-			if b.HasBase() {
+			if pb.Struct.IsValid() {
 				if out.F16.Base, e = planeBaseFrom(pb); e != nil {
 					return nil, e
 				}
@@ -390,13 +390,13 @@ func aircraftFrom(a air.Aircraft) (Aircraft, error) {
 		if err != nil {
 			return out, err
 		}
-		if a.HasB737() {
+		if b.Struct.IsValid() {
 			out.B737 = &B737{}
 			pb, err := b.Base()
 			if err != nil {
 				return out, err
 			}
-			if b.HasBase() {
+			if pb.Struct.IsValid() {
 				if out.B737.Base, err = planeBaseFrom(pb); err != nil {
 					return out, err
 				}
@@ -407,13 +407,13 @@ func aircraftFrom(a air.Aircraft) (Aircraft, error) {
 		if err != nil {
 			return out, err
 		}
-		if a.HasA320() {
+		if b.Struct.IsValid() {
 			out.A320 = &A320{}
 			pb, err := b.Base()
 			if err != nil {
 				return out, err
 			}
-			if b.HasBase() {
+			if pb.Struct.IsValid() {
 				if out.A320.Base, err = planeBaseFrom(pb); err != nil {
 					return out, err
 				}
@@ -424,13 +424,13 @@ func aircraftFrom(a air.Aircraft) (Aircraft, error) {
 		if err != nil {
 			return out, err
 		}
-		if a.HasF16() {
+		if b.Struct.IsValid() {
 			out.F16 = &F16{}
 			pb, err := b.Base()
 			if err != nil {
 				return out, err
 			}
-			if b.HasBase() {
+			if pb.Struct.IsValid() {
 				if out.F16.Base, err = planeBaseFrom(pb); err != nil {
 					return out, err
 				}
